@@ -6,7 +6,7 @@ from absint import Undecidable
 import spec_bdd
 F = Facts(sys.argv[1])
 E = Engine(F)
-spec_bdd.install(E); spec_bdd.install_structure(E)
+spec_bdd.install(E); spec_bdd.install_structure(E); spec_bdd.install_fp(E)
 names = sys.argv[2:]
 for n in names:
     full = spec_bdd.B + n
